@@ -90,16 +90,16 @@ def swapGateTp (nsym : Nat) (fss : List Bool) (axes : List (List Nat)) (ts : Lis
   | some ps => .ok (swapGateTpOf nsym fss ps ts)
 
 /-- a block: charges of its native legs, and its (flattened) data -/
-abbrev Block := List Charge × List Int
+abbrev SBlock := List Charge × List Int
 
-def Block.scale (s : Int) (b : Block) : Block := (b.1, b.2.map (s * ·))
+def SBlock.scale (s : Int) (b : SBlock) : SBlock := (b.1, b.2.map (s * ·))
 
 /-- sign of a block from `tp % 2` -/
 def tpSign (tp : Int) : Int := if tp = 0 then 1 else -1
 
 /-- `swap_gate(a, axes)` on a tensor given as its list of blocks.  The error does not depend on
 the blocks (`_meta_swap_gate` raises before looking at them). -/
-def swapGate (f : Fermionic) (nsym : Nat) (axes : List (List Nat)) (a : List Block) : Except String (List Block) :=
+def swapGate (f : Fermionic) (nsym : Nat) (axes : List (List Nat)) (a : List SBlock) : Except String (List SBlock) :=
   if !f.truthy then .ok a
   else match pairUp axes with
     | none => .error "Odd number of elements in axes. Elements of axes should come in pairs."
@@ -120,8 +120,8 @@ def swapGateChargeTp (nsym : Nat) (fss : List Bool) (axes : List Nat) (charges :
     .error "Length or number of charges does not match sym.NSYM or axes."
   else .ok (swapGateChargeTpOf nsym fss axes charges ts)
 
-def swapGateCharge (f : Fermionic) (nsym : Nat) (axes : List Nat) (charges : List Int) (a : List Block) :
-    Except String (List Block) :=
+def swapGateCharge (f : Fermionic) (nsym : Nat) (axes : List Nat) (charges : List Int) (a : List SBlock) :
+    Except String (List SBlock) :=
   if !f.truthy then .ok a
   else if charges.length ≠ axes.length * nsym then
     .error "Length or number of charges does not match sym.NSYM or axes."
